@@ -125,7 +125,8 @@ fn ref_col<'a>(t: &Table, c: &Col, line: &'a str, cache: &mut Vec<Option<Option<
     let scalar = |ty: &str, r: (usize, usize), dflt: RVal, cache: &mut Vec<Option<Option<Vec<Option<&'a str>>>>>| -> Exp {
         let (matched, g) = group_text(t, line, r, cache);
         if ty == "boolean" {
-            return if matched { Exp::Is(RVal::Bool(g.is_some())) } else { Exp::OneOf(vec![dflt, RVal::Bool(false)]) };
+            // the pattern did not take part: NULL (or the DEFAULT), like every other type
+            return if matched { Exp::Is(RVal::Bool(g.is_some())) } else { Exp::Is(dflt) };
         }
         match g {
             None => Exp::Is(dflt),
@@ -530,7 +531,7 @@ pub fn run(ctx: &Ctx) -> i32 {
             level: "exploration",
             rule: "CREATE TABLE texts from a column-spec alphabet (6 types x group indexes {0,1,2,3,9} x {-, NOT NULL, DEFAULT, TRIM}; arrays over reference lists; timestamps over 2..7 references x {-, MICROSECONDS, DEFAULT}; capture / split / inline / several patterns; column pairs) x lines built from per-slot token alphabets (empty, extremes, non-literals, non-ASCII digits, out-of-range date parts; quick: <= 2 date slots varied from a valid baseline, thorough: all pairs of slots); oracle: reference extractor (regex crate as matcher + own literal grammars + own calendar). Non-trivial: a referenced group took part in the match (a conversion decided the value), or the row is cut by NOT NULL.".into(),
             exhaustive: true,
-            assumptions: vec!["regex crate trusted as matcher".into(), "BOOLEAN column of an unmatched pattern: NULL/DEFAULT or false accepted; a non-numeric date part: NULL or DEFAULT accepted".into(), "TZ=UTC".into()],
+            assumptions: vec!["regex crate trusted as matcher".into(), "a non-numeric date part: NULL or DEFAULT accepted".into(), "TZ=UTC".into()],
             bounds: json!({"cases": total}),
         },
     )
